@@ -23,7 +23,7 @@ import Stef.Driver.Spec
   <path>: `-` or steps separated by `/`: f<i> field getter, a<k> oneof alternative getter (1-based),
   e<i> At(i), k<i> Key(i), v<i> Value(i).
   <m> <args>: sp <i> <val> | us <i> | pr <i> | so <i> <src> | cf <src> | st <k> | sa <k> <val> | el <n> |
-  ap <val> | ao <src> | cs <val,val,..|-> | sk <i> <val> | sv <i> <val> | ak <val> <val>
+  ap <val> | ao <src> | cs <val,val,..|-> | sk <i> <val> | sv <i> <val> | sko <i> <src> | svo <i> <src> | ak <val> <val>
   <val>: T | F | x<hex> | f<hex> | s<hex>.   <src>: o<id> | a:<path> | r<n>:<path> (reader record after n reads).
 -/
 namespace Stef.Driver.ApiD
@@ -170,6 +170,8 @@ def parseOp (h : Hist) (toks : List String) : Option Op :=
   | ["cs", vs] => if vs = "-" then some (.copyFromSlice []) else do some (.copyFromSlice (← (vs.splitOn ",").mapM parseVal))
   | ["sk", i, v] => do some (.setKey (← parseNat i) (← parseVal v))
   | ["sv", i, v] => do some (.setValue (← parseNat i) (← parseVal v))
+  | ["sko", i, s] => do some (.setKeyObj (← parseNat i) (← resolveSrc h s))
+  | ["svo", i, s] => do some (.setValueObj (← parseNat i) (← resolveSrc h s))
   | ["ak", k, v] => do some (.appendKV (← parseVal k) (← parseVal v))
   | _ => none
 
